@@ -1692,7 +1692,9 @@ def gen_c19_enc(rng, size=30):
            "init": init, "chunks": chunks, "encs": encs}
     if target == "hexital" and len(members) >= 1 and rng.random() < 0.25:
         scn["remove_at"] = [rng.randrange(len(chunks)), rng.randrange(len(members))]
-    if target == "hexital" and with_ts and cfg.get("life") is None and rng.random() < 0.25:
+    if target == "hexital" and with_ts and cfg.get("life") is None and not cfg.get("tf") and rng.random() < 0.25:
+        # (only on a Hexital without a timeframe of its own: a manager created late is built from what the default manager holds, and
+        # collapsing already collapsed buckets re-associates the volume sums)
         extra = gen_spec(rng, kind=rng.choice(["SMA", "EMA", "ATR", "RSI"]))
         extra["tf"] = (base_tf[0] + str(int(base_tf[1:]) * rng.choice([1, 2, 3]))) if rng.random() < 0.8 else None   # (the stream's own grid)
         extra["form"] = "obj"
